@@ -31,7 +31,15 @@ namespace adept {
 	throw invalid_operation("Operation applied that is invalid with active arrays"
 				ADEPT_EXCEPTION_LOCATION);
       }
-      void unregister(Index n) { ADEPT_ACTIVE_STACK->unregister_gradients(value_, n); }
+      void unregister(Index n) {
+	// An object created while recording is paused was not
+	// registered (see Stack::register_gradients), so must not be
+	// unregistered either: same rule as Active and Storage
+#ifdef ADEPT_RECORDING_PAUSABLE
+	if (ADEPT_ACTIVE_STACK->is_recording())
+#endif
+	  ADEPT_ACTIVE_STACK->unregister_gradients(value_, n);
+      }
 #ifdef ADEPT_MOVE_SEMANTICS
       void swap_value(GradientIndex& rhs) noexcept {
 	Index tmp_value = rhs.get();
